@@ -62,7 +62,26 @@ fn is_length_err<E: std::fmt::Debug>(e: &E) -> XoObs {
     }
 }
 
+/// Before every observed recombination, the same operator is used once on parents of another length with
+/// a throw-away generator: a recombination is a function of its parents and the generator it is handed,
+/// whatever the operator (or the thread) was used for before.
+fn prime(two_point: bool, l: usize) {
+    use rand::SeedableRng;
+    let mut rng = rand::rngs::StdRng::seed_from_u64(l as u64);
+    let other = l + 3;
+    let _ = mcx::guarded(|| {
+        if two_point {
+            let _ = TwoPointXo.recombine([tagged(1, other), tagged(2, other)], &mut rng);
+            let _ = TwoPointXo.recombine([bits(1, other), bits(2, other)], &mut rng);
+        } else {
+            let _ = UniformXo.recombine([tagged(1, other), tagged(2, other)], &mut rng);
+            let _ = UniformXo.recombine([bits(1, other), bits(2, other)], &mut rng);
+        }
+    });
+}
+
 pub fn recombine(two_point: bool, f: Flavour, l1: usize, l2: usize, env: &mut Env, alpha: Alphabet) -> XoObs {
+    prime(two_point, l1);
     let mut rng = ChoiceRng::new(env, alpha);
     macro_rules! go {
         ($op:expr) => {{
